@@ -226,7 +226,9 @@ class LogicalType(type):  # noqa
                 )
                 arg = cls._parse_arg(arg)
                 registered = True
-            elif isinstance(arg, LogicalType) and arg.combinator:
+            elif isinstance(arg, LogicalType):
+                # a nested combination, or a generic member (the List['B'] of `A ^ List['B']`):
+                # its own args were built without a registry
                 if arg.register_forward_refs(
                     global_vars=global_vars,
                     forward_refs=forward_refs,
@@ -1897,6 +1899,55 @@ class Rule(metaclass=LogicalType):
                 )
             )
         return value
+
+    @classmethod
+    def register_forward_refs(
+        cls,
+        global_vars: Dict[str, Any] = None,
+        forward_refs=None,
+        forward_key: str = None,
+        force_clear: bool = False
+    ):
+        # an override version of LogicalType.register_forward_refs: the refs of a rule are its args
+        registered = False
+        origin = cls.__origin__
+        if isinstance(origin, LogicalType) and origin.combinator:
+            if LogicalType.register_forward_refs(
+                origin, global_vars=global_vars, forward_refs=forward_refs,
+                forward_key=forward_key, force_clear=force_clear
+            ):
+                registered = True
+        if not cls.__args__:
+            return registered
+        args = []
+        arg_transformers = []
+        for i, (arg, trans) in enumerate(zip(cls.__args__, cls.__arg_transformers__)):
+            key = f"{forward_key}:{i}" if forward_key else str(i)
+            if isinstance(arg, ForwardRef):
+                arg = register_forward_ref(
+                    annotation=arg,
+                    global_vars=global_vars,
+                    forward_refs=forward_refs,
+                    forward_key=key,
+                    force_clear=force_clear,
+                )
+                if not isinstance(arg, ForwardRef):
+                    # evaluated right away
+                    arg = LogicalType._parse_arg(arg)
+                    trans = cls.transformer_cls.resolver_transformer(arg) or trans
+                registered = True
+            elif isinstance(arg, LogicalType):
+                if arg.register_forward_refs(
+                    global_vars=global_vars, forward_refs=forward_refs,
+                    forward_key=key, force_clear=force_clear
+                ):
+                    registered = True
+            args.append(arg)
+            arg_transformers.append(trans)
+        if registered:
+            cls.__args__ = tuple(args)
+            cls.__arg_transformers__ = tuple(arg_transformers)
+        return registered
 
     @classmethod
     def resolve_forward_refs(cls):
